@@ -2,11 +2,13 @@
 package main
 
 import (
+	"fmt"
 	"os"
 	"strings"
 
 	"verif/core"
 	"verif/e2/check"
+	"verif/e2/drv"
 	"verif/e2/families"
 )
 
@@ -39,6 +41,18 @@ func run(c *core.Ctx) {
 			c.HarnessError("%s: %v", f.Name, err)
 			continue
 		}
+		if f.CompileOnly {
+			// no driver: the document-only parts run here, on every design goa generated
+			for _, d := range corpus.Designs {
+				if !d.Gen.OK || d.Spec == nil {
+					continue
+				}
+				for _, r := range drv.C07Static(corpus.Dir, d.Name, d.Spec) {
+					fold(c, corpus.Family, r)
+				}
+			}
+			continue
+		}
 		if err := check.RunMode(c, corpus, "C07"); err != nil {
 			c.HarnessError("%s: %v", f.Name, err)
 		}
@@ -53,6 +67,35 @@ func run(c *core.Ctx) {
 	}
 	if err := check.RunMode(c, corpus, "C07"); err != nil {
 		c.HarnessError("oa-routes: %v", err)
+	}
+}
+
+// fold adds one in-process result to the evidence exactly as check.RunMode does for driver output.
+func fold(c *core.Ctx, family string, r *drv.MethodResult) {
+	for _, e := range r.HarnessErr {
+		c.HarnessError("C07 %s/%s/%s: %s", r.Design, r.Service, r.Method, e)
+	}
+	if r.Skipped != "" {
+		c.AddNote("methods_skipped", 1)
+		return
+	}
+	c.AddNote("methods_executed", 1)
+	c.Exec(r.Execs)
+	for i := int64(0); i < r.Cases; i++ {
+		c.State(fmt.Sprintf("%s/%s/%s/%s/%d", family, r.Design, r.Service, r.Method, i), i < r.Nontrivial)
+	}
+	for k := range r.Outcomes {
+		c.Outcome(k)
+	}
+	for k, n := range r.Notes {
+		c.AddNote(k, n)
+	}
+	for _, s := range r.Samples {
+		c.Sample(map[string]any{"design": r.Design, "method": r.Method, "feat": r.Feat, "case": s})
+	}
+	for _, v := range r.Viols {
+		cs := map[string]any{"corpus": family, "design": r.Design, "service": r.Service, "method": r.Method, "feat": r.Feat, "mode": "C07-static", "case": v.Case, "count": v.Count}
+		c.Violation(v.Sig, v.What, cs, nil)
 	}
 }
 
